@@ -134,7 +134,42 @@ def positional(spec, datum, e, layouts, path="$"):  # noqa: C901, PLR0912
     # unions, enums, paths ...: no positional rule in the strict-origins table
 
 
-def check_case(ctx: runner.Ctx, case):  # noqa: C901
+def excluded_variants(t, datum_spec):
+    """Targeted variants of the datum: every iterable-typed position at the root or one level below is replaced by a
+    str and by a Mapping (the documented strict exclusions)."""
+    out = []
+    s = tspec.strip(t)
+    iterable = ("list", "set", "frozenset", "vtuple", "deque", "abc", "tuple")
+    if s[0] in iterable:
+        out += ["ab", "", {"$": "d", "v": [["k", 1]]}, {"$": "custmap", "v": [["k", 1]]}, {"$": "strsub", "s": "ab"}]
+    if isinstance(datum_spec, list) and s[0] in ("list", "vtuple", "deque", "set", "frozenset", "abc"):
+        inner = tspec.strip(s[2] if s[0] == "abc" else s[1])
+        if inner[0] in iterable and datum_spec:
+            out += [[*datum_spec[:-1], "ab"], [{"$": "d", "v": [["k", 1]]}, *datum_spec[1:]]]
+    if isinstance(datum_spec, dict) and datum_spec.get("$") == "d":
+        children = {}
+        if s[0] in ("dict", "mapping", "mutablemapping", "defaultdict"):
+            children = {k if not isinstance(k, dict) else None: s[2] for k, _ in datum_spec["v"]}
+        elif s[0] == "model":
+            children = {tspec.model_key(f["n"]): f["t"] for f in s[1]["fields"]}
+        for i, (k, _) in enumerate(datum_spec["v"]):
+            ct = children.get(k if not isinstance(k, dict) else None)
+            if ct is not None and tspec.strip(ct)[0] in iterable:
+                for repl in ("ab", {"$": "d", "v": [["k", 1]]}):
+                    v2 = [list(p) for p in datum_spec["v"]]
+                    v2[i][1] = repl
+                    out.append({"$": "d", "v": v2})
+    return out
+
+
+def check_case(ctx: runner.Ctx, case):
+    if not ctx.replaying and case.get("variants", True):
+        for v in excluded_variants(case["t"], case["datum"])[:6]:
+            check_one(ctx, {**case, "datum": v, "ops": ["excluded_variant"], "variants": False})
+    return check_one(ctx, case)
+
+
+def check_one(ctx: runner.Ctx, case):  # noqa: C901
     t = case["t"]
     hint, e = tspec.build_type(t)
     recipe = build_layouts(case.get("layouts", {}), e)
@@ -157,7 +192,8 @@ def check_case(ctx: runner.Ctx, case):  # noqa: C901
              sample={"type": tspec.text(t), "datum": case["datum"], "debug": case["debug"], "layouts": case.get("layouts"),
                      "strict": outs[True][0], "lax": outs[False][0]},
              labels=[f"strict:{outs[True][0]}", f"lax:{outs[False][0]}", f"debug:{case['debug']}",
-                     "src:" + ("soup" if case["ops"] == ["soup"] else f"near{len(case['ops'])}"), f"top:{t[0]}",
+                     "src:" + ("soup" if case["ops"] == ["soup"] else "excluded_variant" if case["ops"] == ["excluded_variant"]
+                               else f"near{len(case['ops'])}"), f"top:{t[0]}",
                      *(["lax_overlapping_union"] if overlap else [])])
     head = f"type={tspec.text(t)} debug={case['debug']} layouts={case.get('layouts')} datum={case['datum']!r}"
     if not strict_ok:
